@@ -129,7 +129,12 @@ pub fn worker(check: &dyn Check, tier: Tier, base: u64, w: u64, n: u64, secs: u6
     let mut keys: HashSet<u64> = HashSet::new();
     let mut shapes: HashSet<u64> = HashSet::new();
 
+    let cur_path = current_case_path(std::os::unix::process::parent_id(), w);
+    if let Some(d) = cur_path.parent() {
+        let _ = std::fs::create_dir_all(d);
+    }
     let mut handle = |s: &mut WorkerSummary, seed: Option<u64>, case: Value, keys: &mut HashSet<u64>, shapes: &mut HashSet<u64>| {
+        let _ = std::fs::write(&cur_path, json!({"seed": seed, "case": case}).to_string());
         let v = check.execute(&case);
         s.cases += 1;
         s.runs += v.runs;
@@ -190,6 +195,7 @@ pub fn worker(check: &dyn Check, tier: Tier, base: u64, w: u64, n: u64, secs: u6
     }
     s.nontrivial_keys = keys.into_iter().collect();
     s.shapes = shapes.into_iter().collect();
+    let _ = std::fs::remove_file(&cur_path);
     s
 }
 
@@ -308,7 +314,21 @@ fn run_child(args: &[String], stdin: Option<&str>) -> Option<(i32, String)> {
         child.stdin.take()?.write_all(s.as_bytes()).ok()?;
     }
     let out = child.wait_with_output().ok()?;
-    Some((out.status.code().unwrap_or(2), String::from_utf8_lossy(&out.stdout).to_string()))
+    let code = match out.status.code() {
+        Some(c) => c,
+        None => {
+            use std::os::unix::process::ExitStatusExt as _;
+            1000 + out.status.signal().unwrap_or(0)
+        }
+    };
+    Some((code, String::from_utf8_lossy(&out.stdout).to_string()))
+}
+
+/// Where worker `w` of the orchestrator with process id `orch` notes the case it is executing
+/// (so that a crash of the code under test - stack overflow, abort - can be attributed).
+fn current_case_path(orch: u32, w: u64) -> PathBuf {
+    let base = std::env::var("BRUSHSIM_SCRATCH").unwrap_or_else(|_| "/tmp/brushsim".into());
+    PathBuf::from(base).join(format!("cur-{orch}-{w}.json"))
 }
 
 pub fn orchestrate(check: &dyn Check, opts: &CheckOpts) -> i32 {
@@ -375,7 +395,8 @@ pub fn orchestrate(check: &dyn Check, opts: &CheckOpts) -> i32 {
     let mut keys: HashSet<u64> = HashSet::new();
     let mut shapes: HashSet<u64> = HashSet::new();
     let mut rechecks: Vec<(u64, Vec<u64>)> = vec![];
-    for c in children {
+    let mut crashed: Vec<(Value, String, i32)> = vec![];
+    for (w, c) in children.into_iter().enumerate() {
         let out = match c.wait_with_output() {
             Ok(o) => o,
             Err(e) => {
@@ -384,8 +405,28 @@ pub fn orchestrate(check: &dyn Check, opts: &CheckOpts) -> i32 {
             }
         };
         if !out.status.success() {
-            println!("HARNESS-ERROR worker exited with {:?}", out.status);
-            return 2;
+            // the code under test may have crashed the process (stack overflow, abort): if the
+            // case the worker was executing crashes a fresh process too, that is a violation
+            let cur = current_case_path(std::process::id(), w as u64);
+            let noted: Option<Value> = std::fs::read_to_string(&cur).ok().and_then(|t| serde_json::from_str(&t).ok());
+            let _ = std::fs::remove_file(&cur);
+            let crashed_again = noted.as_ref().and_then(|n| {
+                let case_s = serde_json::to_string(&n["case"]).ok()?;
+                match run_child(&["exec-case".to_string(), id.to_string()], Some(&case_s)) {
+                    Some((code, _)) if code >= 1000 => Some(code - 1000),
+                    _ => None,
+                }
+            });
+            match (noted, crashed_again) {
+                (Some(n), Some(sig)) => {
+                    crashed.push((n["case"].clone(), format!("seed:{}", n["seed"]), sig));
+                    continue;
+                }
+                _ => {
+                    println!("HARNESS-ERROR worker exited with {:?}", out.status);
+                    return 2;
+                }
+            }
         }
         let text = String::from_utf8_lossy(&out.stdout);
         let Some(line) = text.lines().rev().find(|l| l.starts_with('{')) else {
@@ -536,6 +577,32 @@ pub fn orchestrate(check: &dyn Check, opts: &CheckOpts) -> i32 {
             }
         }
         println!("VIOLATION property={id} replay={} class={} detail={}", path.display(), final_viol.class, final_viol.detail.replace('\n', " "));
+        violation_count += 1;
+        exit = 1;
+    }
+
+    for (case, origin, sig) in crashed.iter().take(3) {
+        let case_s = serde_json::to_string(case).unwrap_or_default();
+        let class = format!("{id}/crash");
+        let detail = format!("the process executing this case was killed by signal {sig} (stack overflow or abort in the code under test), again in a fresh process");
+        let name = format!("{id}-{:016x}.json", splitmix(case_s.len() as u64 ^ splitmix(case_s.bytes().fold(0u64, |a, b| a.wrapping_mul(131).wrapping_add(b as u64)))));
+        let path = root.join("replays").join(&name);
+        let replay = json!({
+            "format": 1, "property": id, "engine": check.engine(), "origin": origin,
+            "class": class, "detail": detail, "case": case, "minimise_steps": 0,
+            "schedule_note": "not minimised: the case kills the process that executes it",
+            "faults": case.pointer("/cfg/faults").cloned().unwrap_or(Value::Null),
+        });
+        let _ = std::fs::write(&path, serde_json::to_string_pretty(&replay).unwrap_or_default());
+        match run_child(&["replay".to_string(), path.to_string_lossy().to_string()], None) {
+            Some((1, _)) => {}
+            other => {
+                println!("HARNESS-ERROR replay file {} did not reproduce ({:?})", path.display(), other.map(|o| o.0));
+                return 2;
+            }
+        }
+        println!("VIOLATION property={id} replay={} class={class} detail={detail}", path.display());
+        *seen_classes.entry(class).or_insert(0) += 1;
         violation_count += 1;
         exit = 1;
     }
